@@ -44,6 +44,7 @@ type Pop struct {
 	Files    []*PFile
 	nmarker  int
 	Protect  int // physical directory that Step never removes or populates (-1: none)
+	DirFault map[int]string // physical index -> isfile | enotdir | noread | nosearch (C13)
 	Opt      PopOpt
 	Kinds    [][2]string
 	DevPool  []string
@@ -121,7 +122,7 @@ var nonSpecNames = []string{"notes.txt", "a.json.bak", "spec.123.tmp", "README",
 
 // genPop generates a population with 1..4 configured directories.
 func genPop(r *rand.Rand, root string, opt ...PopOpt) *Pop {
-	p := &Pop{Root: root, Protect: -1}
+	p := &Pop{Root: root, Protect: -1, DirFault: map[int]string{}}
 	if len(opt) > 0 {
 		p.Opt = opt[0]
 	}
@@ -197,20 +198,50 @@ func (p *Pop) path(f *PFile) string { return filepath.Join(p.Phys[f.Phys], f.Nam
 // Write materialises the whole population from scratch.
 func (p *Pop) Write() {
 	for i, d := range p.Phys {
+		os.Chmod(d, 0o755)
 		os.RemoveAll(d)
-		if p.Exists[i] {
+		if p.Exists[i] && p.DirFault[i] != "isfile" && p.DirFault[i] != "enotdir" {
 			must(os.MkdirAll(d, 0o755))
 		}
 	}
 	for _, f := range p.Files {
+		if p.DirFault[f.Phys] == "isfile" || p.DirFault[f.Phys] == "enotdir" {
+			continue
+		}
 		p.writeFile(f)
+	}
+	for i, d := range p.Phys {
+		switch p.DirFault[i] {
+		case "isfile":
+			must(os.WriteFile(d, []byte("not a directory"), 0o644))
+		case "enotdir": // d = <file>/sub
+			must(os.WriteFile(filepath.Dir(d), []byte("not a directory"), 0o644))
+		case "noread":
+			must(os.Chmod(d, 0o311))
+		case "nosearch":
+			must(os.Chmod(d, 0o644))
+		}
 	}
 }
 
 func (p *Pop) writeFile(f *PFile) {
 	path := p.path(f)
 	must(os.MkdirAll(filepath.Dir(path), 0o755))
-	must(os.WriteFile(path, f.Content, 0o644))
+	os.Remove(path)
+	switch f.Kind {
+	case "dangling":
+		must(os.Symlink(filepath.Join(p.Root, "nowhere", "target.json"), path))
+	case "linkdir": // a symbolic link to a directory which holds a valid Spec
+		target := filepath.Join(p.Root, "linktarget")
+		must(os.MkdirAll(target, 0o755))
+		must(os.WriteFile(filepath.Join(target, "inside.json"), f.Content, 0o644))
+		must(os.Symlink(target, path))
+	case "unreadable":
+		must(os.WriteFile(path, f.Content, 0o000))
+		must(os.Chmod(path, 0o000))
+	default:
+		must(os.WriteFile(path, f.Content, 0o644))
+	}
 }
 
 func (p *Pop) find(phys int, name string) int {
@@ -364,6 +395,9 @@ func (p *Pop) Resolve() *Resolved {
 			res.HasMissing = true
 			continue
 		}
+		if p.DirFault[phys] != "" {
+			continue // cannot be scanned: contributes nothing
+		}
 		dir := filepath.Clean(p.Conf[prio])
 		for _, f := range p.Files {
 			if f.Phys != phys {
@@ -374,6 +408,12 @@ func (p *Pop) Resolve() *Resolved {
 				continue
 			}
 			path := filepath.Join(dir, f.Name)
+			if f.Kind == "linkdir" {
+				// neither a Spec file nor a directory of ours: contributes nothing;
+				// whether it is reported is not constrained
+				res.HasIgnored = true
+				continue
+			}
 			if f.Kind != "valid" {
 				res.ErrPaths[path] = true
 				res.HasInvalid = true
